@@ -72,6 +72,7 @@ func (dw *deploymentWithdrawal) run() {
 loop:
 	for {
 		withdraw := false
+		dw.vt("loop", "result", result != nil)
 		select {
 
 		case err := <-dw.lc.ShutdownRequest():
@@ -82,6 +83,7 @@ loop:
 			// This event contains no information, so if it is
 			// of the correct type attempt a withdrawal
 			_, withdraw = ev.(event.LeaseWithdrawNow)
+			dw.vt("event", "withdraw", withdraw)
 		case r := <-result:
 			result = nil
 			if err := r.Error(); err != nil {
@@ -100,4 +102,5 @@ loop:
 	cancel()
 
 	dw.log.Debug("shutdown complete")
+	dw.vt("stopped", "result", result != nil)
 }
